@@ -38,6 +38,8 @@ func (c *Ctx) emitMore03(r opRun, m modeling.Mesh, _ bool) {
 			}
 			c.Emit("c03.holds.crop_contract", a+" "+strings.Join(f[1:7], " ")+" "+in+" "+out, "true")
 		}
+	case "vertexcolorspace", "vertexcolorspacet":
+		c.Emit("c03.holds.frame_spec", "3 "+f[0]+" "+in+" "+out, "true")
 	case "translatenode", "scalenode":
 		a := f[0]
 		if a == "-" {
